@@ -27,6 +27,7 @@ theorem disk_changes_only_at_sync (o : FOps) (w : World) (op : LibOp) (hop : Han
     (w.step o op).1.disk = w.disk := by
   cases op with
   | create => exact absurd hop (by simp [HandleOp])
+  | createOver => exact absurd hop (by simp [HandleOp])
   | sync => exact absurd hop (by simp [HandleOp])
   | setDisk => exact absurd hop (by simp [HandleOp])
   | rmDisk => exact absurd hop (by simp [HandleOp])
